@@ -745,7 +745,7 @@ def check_c20(rep):
     raw = []
     import concurrent.futures as cf
     with cf.ThreadPoolExecutor(3) as ex:
-        futs = [ex.submit(hcv, ["c20", rep.tier, str(rep.seed), part], 2400) for part in ("cheetah", "bolt", "conv")]
+        futs = [ex.submit(hcv, ["c20", rep.tier, str(rep.seed), part], 2400) for part in ("cheetah", "bolt", "conv", "rnsp", "ckks")]
         for f in futs:
             raw += f.result().splitlines()
     allev = [json.loads(l) for l in raw]
@@ -800,7 +800,7 @@ def check_c20(rep):
     bad, st = arith.validate(raw, wd, module="Trace_MatMul", chunks=8, timeout=3000)
     for b in bad:
         e = evs[b[0] - 1]
-        sig = {"k": e["k"], "helper": e["helper"], "panic": "panic" in e}
+        sig = {"k": e["k"], "helper": e.get("helper", e.get("op")), "panic": "panic" in e}
         if e["k"] == "conv":
             sig["height_split"] = None
         if "pack" in e:
@@ -811,16 +811,16 @@ def check_c20(rep):
     rep.cov["transitions"] = st["generated"]
     rep.cov["traces_validated_against_impl"] = len(raw)
     rep.cov["evaluations"] = len(raw)
-    rep.cov["distinct_nontrivial"] = len({json.dumps([e["k"], e["helper"], e.get("m"), e.get("r"), e.get("n"), e.get("objective"), e.get("reverse"), e.get("pack"),
+    rep.cov["distinct_nontrivial"] = len({json.dumps([e["k"], e.get("helper", "rnsp:" + str(e.get("op")) + str(e.get("poly")) + str(e.get("moduli"))), e.get("m"), e.get("r"), e.get("n"), e.get("objective"), e.get("reverse"), e.get("pack"),
                                                       e.get("bs"), e.get("ci"), e.get("co"), e.get("h"), e.get("wd"), e.get("kh"), e.get("kw")]) for e in evs})
-    rep.cov["per_helper"] = {h: sum(1 for e in evs if e["helper"] == h) for h in sorted({e["helper"] for e in evs})}
+    rep.cov["per_helper"] = {h: sum(1 for e in evs if e.get("helper", "rns_plain") == h) for h in sorted({e.get("helper", "rns_plain") for e in evs})}
     rep.cov["rule"] = ("events = real runs of the helpers on random operands: Cheetah coefficient-packing matmul for every shape (m,r,n) in 1..4 (quick) / 1..6 (thorough) at N=16 (32) x three objectives "
                        "(cipher*plain, plain*cipher) x output packing on/off (+ selected-terms transport, bias through encode_outputs, encode/decrypt round trip) plus shapes needing several ciphertexts and partial blocks; "
-                       "the three BOLT slot-packing variants at N=32; conv2d over image 2..7 (2..9) x kernel 1..2 x 1..3 x channel/batch combinations incl. height/width tiling; "
+                       "the three BOLT slot-packing variants at N=32; the RNS-plaintext wrapper (two or three plain moduli: encode, encrypt pk/sk, negate/add/sub/multiply/square/plain operations, decrypt, decode, slot- and coefficient-wise) modulo the product of its moduli; the CKKS variants of the coefficient-packing matmul (with and without output packing) and of conv2d on small integer operands (results within 2^-5); conv2d over image 2..7 (2..9) x kernel 1..2 x 1..3 x channel/batch combinations incl. height/width tiling; "
                        "TLC evaluates Y = XW + B mod t resp. the valid cross-correlation of MatMul.tla on every event; Cheetah.tla (refinement of the coefficient packing) is model-checked for all shapes up to the "
                        "stated dimension and bound to the helper through its block choice, encoded polynomials and term lists")
-    rep.samples += [{k: v for k, v in evs[i].items() if k not in ("x", "w", "bias", "y", "v", "out")} for i in (0, len(evs) // 2, len(evs) - 1)]
-    rep.assumptions += ["operands are random per run (seeded); only the listed small shapes are covered; the CKKS variants and the RNS-plaintext wrapper are not exercised by this check"]
+    rep.samples += [{k: v for k, v in evs[i].items() if k not in ("x", "w", "bias", "y", "v", "out", "a", "b", "y1024")} for i in (0, len(evs) // 2, len(evs) - 1)]
+    rep.assumptions += ["operands are random per run (seeded); only the listed small shapes are covered; CKKS variants: cheetah matmul and conv2d, cipher*plain only"]
     log("[C20] %d events, %d rejected; %d layout events against Cheetah.tla, %d against Conv2d.tla" % (len(raw), len(bad), nlay, ncl))
 
 
